@@ -267,6 +267,23 @@ func init() {
 					contentTypes:   contentTypes,
 				}
 
+				// If the wrapped handler aborts (a reverse proxy panics with
+				// http.ErrAbortHandler when the response cannot be completed), whatever it
+				// had produced so far - e.g. a 413 set by size_limit - is still buffered
+				// here. Send it on before the panic unwinds, as would have happened
+				// without this plugin; the server then closes the connection.
+				defer func() {
+					if rec := recover(); rec != nil {
+						if !grw.hijacked && grw.wroteHeader {
+							grw.passThrough()
+							if f, ok := grw.ResponseWriter.(http.Flusher); ok {
+								f.Flush()
+							}
+						}
+						panic(rec)
+					}
+				}()
+
 				next.ServeHTTP(grw, r)
 
 				err := grw.Finish()
